@@ -12,7 +12,8 @@ np.seterr(all="ignore")
 warnings.filterwarnings("ignore")
 
 THEOREMS = ["Yaw.C18.requests_cover_once", "Yaw.C18.requests_bounded", "Yaw.C18.requests_consecutive",
-            "Yaw.C18.probe_and_passes_pinned"]
+            "Yaw.C18.probe_and_passes_pinned", "Yaw.C18.Pq.next_flatten", "Yaw.C18.Pq.run_flatten", "Yaw.C18.Pq.next_length",
+            "Yaw.C18.Pq.next_lazy", "Yaw.C18.Pq.parquet_pinned"]
 RULE = ("instrumented data-frame-like source (logs every slice and every whole-column access) fed to "
         "Catalog.from_dataframe for lengths n in {k*c-1, k*c, k*c+1, < c, 1} x chunk sizes 1..n+2 x patch modes "
         "(centres, index column, generated centres = 2 passes); the slice log is compared EXACTLY with the Lean "
@@ -140,6 +141,7 @@ def run(prop, tier, seed, replay):
                                 wr.write_table(tab.slice(at, k))
                                 at += k
                 lens, rows_ok, lazy_bad = [], True, None
+                pq_obs = []
                 group_sizes, requested = None, []
                 orig_read = pq.ParquetFile.read_row_group
                 if fmt == "parquet":
@@ -159,6 +161,8 @@ def run(prop, tier, seed, replay):
                             for ch in reader:
                                 chunks.append(ch)
                                 handed += len(ch)
+                                if group_sizes is not None:
+                                    pq_obs.append((len(ch), len(requested)))
                                 if group_sizes is not None and lazy_bad is None:
                                     # bounded + non-overlapping: the row groups requested so far are exactly the shortest
                                     # prefix of the file that covers the records handed out, each requested once
@@ -184,6 +188,10 @@ def run(prop, tier, seed, replay):
                 ck.case(dict(rep, lens=lens[0]) if len(ck.samples) < 6 else None, (fmt, n, c) if n > c else None)
                 reqs.append(f"f{fi} requests {n} {c}")
                 expect.append((lens, "file", rep))
+                if group_sizes is not None and lens and sum(lens[0]) == n:
+                    k = len(lens[0])
+                    reqs.append(f"p{fi} pq {len(group_sizes)} {' '.join(map(str, group_sizes))} {c} {k}")
+                    expect.append((pq_obs[:k], "parquet-cache", dict(rep, row_groups=group_sizes)))
     finally:
         C.remove(root)
     ans = ck.driver("GenReader", reqs)
@@ -191,8 +199,15 @@ def run(prop, tier, seed, replay):
         n, c = rep["n"], rep["chunksize"]
         nchunks = -(-n // c)
         model = None
-        if ans is not None:
+        if ans is not None and passes != "parquet-cache":
             model = [tuple(int(x) for x in t.split(":")) for t in ans[idx].split()]
+        if passes == "parquet-cache":
+            if ans is not None:
+                model_pq = [(int(t.split(":")[0]), int(t.split(":")[2])) for t in ans[idx].split()]
+                if model_pq != [tuple(x) for x in obs]:
+                    ck.add_tie_break("Parquet row-group cache: (chunk length, row groups requested) after every chunk vs model",
+                                     {"case": rep, "impl": obs, "model": model_pq})
+            continue
         if passes == "file":
             for ln in obs:
                 # spec: consecutive chunks of 1..c records covering the file exactly once per pass
